@@ -120,6 +120,12 @@ class Labeller:
                     r = sb.blocks[site[1]].term.resolved()
                     if r:
                         body = self.facts.body(r)
+            if body is not None and body.id in getattr(self, "inline", ()):
+                # a private helper that all its callers label (like a closure): what it returns is judged where it is called
+                out = []
+                for ct, _, _ in self.inter.ret_cases(body):
+                    out.extend(self.unlabelled(ct, depth - 1, env))
+                return out
             if body is not None and body.id in self.checked:
                 return []  # inductive: that function is checked itself
             line = None
@@ -210,6 +216,27 @@ def run_world(facts, rep, w, floors):
         if b.trait_item_of == "path::PathLike":
             checked.add(b.id)
     lab = Labeller(facts, w, inter, pf, checked)
+    # private helpers of the path layer are first judged on their own (the usual case: they label what they return); one that
+    # hands raw errors to its callers is acceptable iff every caller labels them — it is then judged inlined at its call sites
+    lab.inline = set()
+    callers = {}
+    for b in bodies:
+        for c in inter.code_bodies(b):
+            for s_ in inter.sites(c):
+                hb = inter.local_callee(s_)
+                if hb is not None and hb.id != b.id:
+                    callers.setdefault(hb.id, set()).add(b.id)
+    deferred = set()
+    for b in bodies:
+        if b.vis == "pub" or b.trait_item_of or (b.impl and b.impl.get("trait")) or not callers.get(b.id):
+            continue
+        cb = inter.code_body(b)
+        if "VfsError" not in cb.local_ty(0):
+            continue
+        if any(lab.unlabelled(ct) for ct, _, _ in inter.ret_cases(b)):
+            deferred.add(b.id)
+    lab.inline = {inter.code_body(b).id for b in bodies if b.id in deferred} | deferred
+    lab.checked = checked - lab.inline
     n_fallible = 0
     n_with_path = 0
     for b in bodies:
@@ -218,6 +245,11 @@ def run_world(facts, rep, w, floors):
         if "VfsError" not in rty:
             continue
         n_fallible += 1
+        if b.id in deferred:
+            rep.ob("R12.1", b.id, "every returned error is labelled", True, "private helper judged at its call sites", b.span)
+            for c in inter.code_bodies(b):
+                n_with_path += sum(1 for s in inter.sites(c) if s.short == "VfsError::with_path")
+            continue
         cases = inter.ret_cases(b)
         bad = []
         for ct, _, bb in cases:
